@@ -55,11 +55,11 @@ Notation flow_spec := (flow_spec gen_obj gen_data estimate).
 Notation sample_unit := (sample_unit dData dEst gen_obj gen_data estimate).
 
 
-Lemma sample_unit_spec c o amb s : orders_cover c o ->
-  sample_unit c o amb s =
-  {| r_true := sample_true gen_obj c amb s; r_testers := sample_testers gen_obj c amb s;
-     r_data := map (flow_data gen_obj gen_data c amb s) (seq 0 (f_n_rep c));
-     r_est := map (fun k => map (flow_est gen_obj gen_data estimate c amb s k) (seq 0 (f_n_rep c))) (seq 0 (f_n_case c)) |}.
+Lemma sample_unit_spec c o s : orders_cover c o ->
+  sample_unit c o s =
+  {| r_true := sample_true gen_obj c s; r_testers := sample_testers gen_obj c s;
+     r_data := map (flow_data gen_obj gen_data c s) (seq 0 (f_n_rep c));
+     r_est := map (fun k => map (flow_est gen_obj gen_data estimate c s k) (seq 0 (f_n_rep c))) (seq 0 (f_n_case c)) |}.
 Proof. intros (H1 & H2 & H3 & H4). unfold C15_Dataflow.sample_unit.
   rewrite (par_exec_schedule_irrelevant dData) by apply H2.
   rewrite (par_exec_schedule_irrelevant []) by apply H3.
@@ -69,7 +69,7 @@ Proof. intros (H1 & H2 & H3 & H4). unfold C15_Dataflow.sample_unit.
   rewrite nth_map_seq by lia. reflexivity. Qed.
 
 (* results of the four-level parallel execution = the directly written result map, for every schedule *)
-Theorem flow_exec_spec c o amb : orders_cover c o -> flow_exec c o amb = flow_spec c amb.
+Theorem flow_exec_spec c o : orders_cover c o -> flow_exec c o = flow_spec c.
 Proof. intros H. unfold C15_Dataflow.flow_exec, C15_Dataflow.flow_spec.
   rewrite (par_exec_schedule_irrelevant _) by apply H.
   apply map_ext_in. intros s _. now apply sample_unit_spec. Qed.
@@ -77,32 +77,29 @@ Proof. intros H. unfold C15_Dataflow.flow_exec, C15_Dataflow.flow_spec.
 Lemma serial_covers c : orders_cover c (serial c).
 Proof. repeat split; intros; apply covers_seq. Qed.
 
-Theorem flow_schedule_irrelevant c o o' amb :
-  orders_cover c o -> orders_cover c o' -> flow_exec c o amb = flow_exec c o' amb.
+(* the whole result is a function of the configuration (settings + seeds) alone: the schedules of the four levels do
+   not matter, and nothing else (no process-global stream) enters *)
+Theorem flow_deterministic c o o' :
+  orders_cover c o -> orders_cover c o' -> flow_exec c o = flow_exec c o'.
 Proof. intros H H'. now rewrite !flow_exec_spec. Qed.
 
-(* when no generation setting falls back to the ambient stream the result is a function of the
-   configuration (settings + seeds) alone *)
-Lemma qop_key_ambient_free c a a' s j : ambient_free c = true -> qop_key c a s j = qop_key c a' s j.
-Proof. unfold ambient_free, qop_key. intros H. destruct (f_true_seeded c); [reflexivity|].
-  cbn in H. destruct j as [|t]; [reflexivity|].
-  destruct (nth t (f_tester_seeded c) false) eqn:E; [|reflexivity].
-  exfalso. apply negb_true_iff in H.
-  assert (existsb (fun b => b) (f_tester_seeded c) = true); [|congruence].
-  apply existsb_exists. exists true. split; [|reflexivity].
-  destruct (Nat.lt_ge_cases t (length (f_tester_seeded c))) as [Hl|Hl].
-  - rewrite <- E. now apply nth_In.
-  - rewrite nth_overflow in E by exact Hl. discriminate. Qed.
+(* what every stored item is, by index *)
+Theorem flow_exec_nth c o s : orders_cover c o -> (s < f_n_sample c)%nat ->
+  nth s (flow_exec c o) (d_sample dObj) =
+  {| r_true := sample_true gen_obj c s; r_testers := sample_testers gen_obj c s;
+     r_data := map (flow_data gen_obj gen_data c s) (seq 0 (f_n_rep c));
+     r_est := map (fun k => map (flow_est gen_obj gen_data estimate c s k) (seq 0 (f_n_rep c))) (seq 0 (f_n_case c)) |}.
+Proof. intros H Hs. rewrite flow_exec_spec by exact H. unfold C15_Dataflow.flow_spec.
+  now rewrite nth_map_seq. Qed.
 
-Theorem flow_deterministic c o o' amb amb' : ambient_free c = true ->
-  orders_cover c o -> orders_cover c o' -> flow_exec c o amb = flow_exec c o' amb'.
-Proof. intros Ha H H'. rewrite !flow_exec_spec by assumption. unfold C15_Dataflow.flow_spec.
-  apply map_ext_in. intros s _.
-  assert (Et : sample_true gen_obj c amb s = sample_true gen_obj c amb' s).
-  { unfold sample_true. now rewrite (qop_key_ambient_free c (amb s) (amb' s) s 0 Ha). }
-  assert (Es : sample_testers gen_obj c amb s = sample_testers gen_obj c amb' s).
-  { unfold sample_testers. apply map_ext_in. intros j _. now rewrite (qop_key_ambient_free c (amb s) (amb' s) s j Ha). }
-  unfold flow_est, flow_data. rewrite Et, Es. reflexivity. Qed.
+(* re-estimating from the stored data of (sample s, repetition r) with the stored objects reproduces the stored
+   estimate of every case k *)
+Theorem flow_reestimate c o s k r : orders_cover c o ->
+  (s < f_n_sample c)%nat -> (k < f_n_case c)%nat -> (r < f_n_rep c)%nat ->
+  let res := nth s (flow_exec c o) (d_sample dObj) in
+  nth r (nth k (r_est res) []) dEst = estimate k (r_true res) (r_testers res) (nth r (r_data res) dData).
+Proof. intros H Hs Hk Hr. cbn zeta. rewrite flow_exec_nth by assumption. cbn [r_est r_data r_true r_testers].
+  rewrite (nth_map_seq _ [] _ k Hk), (nth_map_seq _ dEst _ r Hr), (nth_map_seq _ dData _ r Hr). reflexivity. Qed.
 End Flow.
 
 (* ------------------------------------------------------------------ keys: injectivity of spawning *)
@@ -175,73 +172,6 @@ Proof. apply (spawn_NoDup (f_seed_data c) [] (f_n_rep c)). Qed.
 Lemma flow_data_keys_are_spawned c : map (data_key c) (seq 0 (f_n_rep c)) = spawn (f_seed_data c) [] (f_n_rep c).
 Proof. reflexivity. Qed.
 
-(* seeded generation: the keys of all (sample, object) pairs are pairwise distinct *)
-Theorem flow_qop_keys_distinct c amb s j s' j' k :
-  f_true_seeded c = true ->
-  qop_key c amb s j = GKey k -> qop_key c amb s' j' = GKey k -> s = s' /\ j = j'.
-Proof. unfold qop_key. intros ->. destruct j as [|t], j' as [|t']; intros H1 H2.
-  - inversion H1; subst. inversion H2. auto.
-  - destruct (nth t' _ false); inversion H1; subst; inversion H2.
-  - destruct (nth t _ false); inversion H1; subst; inversion H2.
-  - destruct (nth t _ false); [|discriminate]. destruct (nth t' _ false); [|discriminate].
-    inversion H1; subst. inversion H2. auto. Qed.
-
-(* ------------------------------------------------------------------ single-setting entry point *)
-(* int seed: EVERY repetition receives the same key, hence (tasks being functions of the key) identical results *)
-Theorem single_int_seed_all_keys_equal n i j : single_key (SInt n) i = single_key (SInt n) j.
-Proof. reflexivity. Qed.
-
-Theorem single_default_seed_all_keys_equal n i j :
-  single_key (resolve_seed SNone (Some n)) i = single_key (resolve_seed SNone (Some n)) j.
-Proof. reflexivity. Qed.
-
-Section SingleRun.
-Context {Data Est : Type} (gen_data : key -> Data) (estimate : Data -> Est).
-Theorem single_run_int_seed_identical (dflt : Data * Est) arg seed n_rep i j :
-  resolve_seed arg (Some seed) = SInt seed -> (i < n_rep)%nat -> (j < n_rep)%nat ->
-  nth i (single_run gen_data estimate arg (Some seed) n_rep) dflt = nth j (single_run gen_data estimate arg (Some seed) n_rep) dflt.
-Proof. intros E Hi Hj. unfold single_run, single_keys. rewrite E, map_map.
-  set (f := fun x : nat => (gen_data (single_key (SInt seed) x), estimate (gen_data (single_key (SInt seed) x)))).
-  rewrite !(nth_indep _ dflt (f 0%nat)) by (rewrite map_length, seq_length; assumption).
-  rewrite !map_nth. reflexivity. Qed.
-End SingleRun.
-
-(* the property "repetitions draw from pairwise distinct streams" is FALSE of the faithful model *)
-Theorem execute_simulation_repetitions_identical_refuted :
-  exists (arg : seedarg) (seed_data : option Z) (n_rep : nat),
-    (2 <= n_rep)%nat /\ ~ NoDup (single_keys arg seed_data n_rep).
-Proof. exists SNone, (Some 5%Z), 3%nat. split; [lia|]. cbn. intros H. inversion H as [|x l Hn _]. apply Hn. now left. Qed.
-
-(* ... whereas a Generator object (or the ambient stream) is threaded: distinct positions *)
-Theorem single_generator_keys_distinct r p o seed_data n_rep : NoDup (single_keys (SGen r p o) seed_data n_rep).
-Proof. unfold single_keys. cbn [resolve_seed]. apply NoDup_map_inj; [|apply seq_NoDup].
-  intros i j _ _ H. cbn in H. inversion H. lia. Qed.
-Theorem single_ambient_keys_distinct n_rep : NoDup (single_keys SNone None n_rep).
-Proof. unfold single_keys. cbn [resolve_seed]. apply NoDup_map_inj; [|apply seq_NoDup].
-  intros i j _ _ H. cbn in H. now inversion H. Qed.
-
-(* ------------------------------------------------------------------ flow: unseeded tester generation *)
-(* "the generated objects are a function of settings and seeds" is FALSE of the faithful model when the true
-   object's noise needs no randomness but a tester's does: the tester draws from the ambient stream *)
-Theorem flow_tester_generation_unseeded_refuted :
-  exists (c : flowcfg) (s j a a' : nat), qop_key c a s j <> qop_key c a' s j.
-Proof. exists {| f_seed_qop := 888; f_seed_data := 777; f_n_sample := 2; f_n_rep := 3; f_n_case := 3;
-                 f_true_seeded := false; f_tester_seeded := [true; true; true] |}, 0%nat, 1%nat, 0%nat, 1%nat.
-  cbn. intros H. inversion H. Qed.
-
-(* and the converse mix raises *)
-Theorem flow_mixed_generation_raises c t : f_true_seeded c = true -> (t < length (f_tester_seeded c))%nat ->
-  nth t (f_tester_seeded c) false = false -> flow_raises c = true /\ forall amb s, qop_key c amb s (S t) = GTypeError.
-Proof. intros H1 Hl H2. split.
-  - unfold flow_raises. rewrite H1. cbn. apply negb_true_iff. apply not_true_iff_false. intros Hf.
-    rewrite forallb_forall in Hf. specialize (Hf (nth t (f_tester_seeded c) false) (nth_In _ _ Hl)). congruence.
-  - intros amb s. unfold qop_key. now rewrite H1, H2. Qed.
-
-(* ------------------------------------------------------------------ the proposed repairs restore the property *)
-Theorem single_keys_fixed_distinct arg seed_data n_rep : NoDup (single_keys_fixed arg seed_data n_rep).
-Proof. unfold single_keys_fixed. apply NoDup_map_inj; [|apply seq_NoDup].
-  intros i j _ _ H. destruct (resolve_seed arg seed_data); cbn in H; inversion H; lia. Qed.
-
 Lemma count_true_app l l' : count_true (l ++ l') = (count_true l + count_true l')%nat.
 Proof. unfold count_true. now rewrite filter_app, app_length. Qed.
 
@@ -251,14 +181,131 @@ Proof. intros Hlt Hs. replace j' with (j + S (j' - j - 1))%nat by lia.
   rewrite seq_app, map_app, count_true_app. cbn [seq map]. rewrite Nat.add_0_l, Hs.
   unfold count_true at 3. cbn [filter length]. lia. Qed.
 
-Theorem flow_qop_keys_fixed_distinct c s j s' j' k :
-  qop_key_fixed c s j = GKey k -> qop_key_fixed c s' j' = GKey k -> s = s' /\ j = j'.
-Proof. unfold qop_key_fixed. destruct (seeded_at c j) eqn:E; [|discriminate].
+(* object generation: no two (sample, object) pairs share a stream position, whatever mix of noise methods *)
+Theorem flow_qop_keys_distinct c s j s' j' k :
+  qop_key c s j = GKey k -> qop_key c s' j' = GKey k -> s = s' /\ j = j'.
+Proof. unfold qop_key. destruct (seeded_at c j) eqn:E; [|discriminate].
   destruct (seeded_at c j') eqn:E'; [|discriminate]. intros H1 H2. inversion H1; subst. inversion H2 as [[Hs Hc]].
   split; [congruence|].
   destruct (Nat.lt_trichotomy j j') as [Hl|[He|Hl]]; [|exact He|].
   - pose proof (count_seeded_lt c j j' Hl E). lia.
   - pose proof (count_seeded_lt c j' j Hl E'). lia. Qed.
+
+(* every object is either deterministic or drawn from the sample's spawned stream: never the process-global stream,
+   never an error; and an object whose setting takes a stream does get one *)
+Theorem flow_qop_key_seeded c s j :
+  qop_key c s j = GNoRandom \/ exists off, qop_key c s j = GKey (KSeed (f_seed_qop c) [s] off).
+Proof. unfold qop_key. destruct (seeded_at c j); [right; eexists; reflexivity|now left]. Qed.
+Theorem flow_qop_key_random_gets_stream c s j : seeded_at c j = true -> exists k, qop_key c s j = GKey k.
+Proof. unfold qop_key. intros ->. eexists; reflexivity. Qed.
+
+(* the object streams and the data streams never coincide when the two seeds differ *)
+Theorem flow_qop_data_keys_disjoint c s j r : f_seed_qop c <> f_seed_data c -> qop_key c s j <> GKey (data_key c r).
+Proof. unfold qop_key, data_key. intros Hne. destruct (seeded_at c j); [|discriminate]. intros H. inversion H. congruence. Qed.
+
+(* --- as coded before fix c15-flow-generation-stream-per-setting --- *)
+Theorem flow_qop_keys_before_fix_distinct c amb s j s' j' k :
+  f_true_seeded c = true ->
+  qop_key_before_fix c amb s j = GKey k -> qop_key_before_fix c amb s' j' = GKey k -> s = s' /\ j = j'.
+Proof. unfold qop_key_before_fix. intros ->. destruct j as [|t], j' as [|t']; intros H1 H2.
+  - inversion H1; subst. inversion H2. auto.
+  - destruct (nth t' _ false); inversion H1; subst; inversion H2.
+  - destruct (nth t _ false); inversion H1; subst; inversion H2.
+  - destruct (nth t _ false); [|discriminate]. destruct (nth t' _ false); [|discriminate].
+    inversion H1; subst. inversion H2. auto. Qed.
+
+(* on the configurations on which the old code neither raised nor used the ambient stream in a different way, old and
+   new keys coincide: the repair changes nothing for homogeneous noise *)
+Theorem flow_qop_key_fix_conservative c amb s j : (j <= length (f_tester_seeded c))%nat ->
+  forallb (fun b => Bool.eqb b (f_true_seeded c)) (f_tester_seeded c) = true ->
+  qop_key c s j = qop_key_before_fix c amb s j.
+Proof. intros Hj Hall. rewrite forallb_forall in Hall.
+  assert (Hs : forall i, (i <= length (f_tester_seeded c))%nat -> seeded_at c i = f_true_seeded c).
+  { intros [|t] Ht; [reflexivity|]. cbn. apply eqb_prop. apply Hall. apply nth_In. lia. }
+  unfold qop_key, qop_key_before_fix. rewrite (Hs j Hj).
+  destruct (f_true_seeded c) eqn:Et.
+  - assert (Hc : count_true (map (seeded_at c) (seq 0 j)) = j).
+    { clear -Hs Hj. induction j as [|j IH]; [reflexivity|].
+      rewrite seq_S, map_app, count_true_app, IH by lia. cbn [map Nat.add]. rewrite (Hs j) by lia.
+      unfold count_true. cbn. lia. }
+    rewrite Hc. destruct j as [|t]; [reflexivity|].
+    specialize (Hs (S t) Hj). cbn in Hs. rewrite Hs. reflexivity.
+  - destruct j as [|t]; [reflexivity|]. specialize (Hs (S t) Hj). cbn in Hs. rewrite Hs. reflexivity. Qed.
+
+(* ------------------------------------------------------------------ single-setting entry point *)
+(* whatever the argument (None -> seed_data or the ambient stream, an int, a Generator): the repetitions draw from
+   pairwise distinct stream positions *)
+Theorem single_keys_distinct arg seed_data n_rep : NoDup (single_keys arg seed_data n_rep).
+Proof. unfold single_keys. apply NoDup_map_inj; [|apply seq_NoDup].
+  intros i j _ _ H. destruct (resolve_seed arg seed_data); cbn in H; inversion H; lia. Qed.
+
+(* all repetitions draw from ONE generator, at consecutive positions *)
+Theorem single_keys_one_stream arg seed_data n_rep i : (i < n_rep)%nat ->
+  nth i (single_keys arg seed_data n_rep) (KAmbient 0) =
+  match resolve_seed arg seed_data with
+  | SInt n => KSeed n [] i | SGen r p o => KSeed r p (o + i) | SNone => KAmbient i end.
+Proof. intros Hi. unfold single_keys. rewrite nth_map_seq by exact Hi. destruct (resolve_seed arg seed_data); reflexivity. Qed.
+
+(* with a seed (argument or the setting's seed_data) no process-global stream is involved: the run is a function of
+   settings and seed *)
+Definition key_seeded (k : key) : bool := match k with KSeed _ _ _ => true | KAmbient _ => false end.
+Theorem single_keys_seeded arg seed_data n_rep : (arg <> SNone \/ seed_data <> None) ->
+  forallb key_seeded (single_keys arg seed_data n_rep) = true.
+Proof. intros H. apply forallb_forall. intros k Hk. unfold single_keys in Hk. apply in_map_iff in Hk.
+  destruct Hk as [i [<- _]]. destruct arg; cbn; try reflexivity.
+  destruct seed_data; [reflexivity|]. destruct H; congruence. Qed.
+
+(* the repair does not touch the Generator / ambient cases, nor repetition 0 of the int case *)
+Theorem single_key_fix_conservative s rep : (forall n, s <> SInt n) \/ rep = 0%nat -> single_key s rep = single_key_before_fix s rep.
+Proof. intros [H| ->]; destruct s; try reflexivity. exfalso. now apply (H n). Qed.
+
+(* --- as coded before fix c15-execute-simulation-int-seed-stream --- *)
+(* int seed: EVERY repetition received the same key, hence (tasks being functions of the key) identical results *)
+Theorem single_int_seed_all_keys_equal_before_fix n i j : single_key_before_fix (SInt n) i = single_key_before_fix (SInt n) j.
+Proof. reflexivity. Qed.
+
+Section SingleRun.
+Context {Data Est : Type} (gen_data : key -> Data) (estimate : Data -> Est).
+Theorem single_run_int_seed_identical_before_fix (dflt : Data * Est) arg seed n_rep i j :
+  resolve_seed arg (Some seed) = SInt seed -> (i < n_rep)%nat -> (j < n_rep)%nat ->
+  nth i (single_run_before_fix gen_data estimate arg (Some seed) n_rep) dflt = nth j (single_run_before_fix gen_data estimate arg (Some seed) n_rep) dflt.
+Proof. intros E Hi Hj. unfold single_run_before_fix, single_keys_before_fix. rewrite E, map_map.
+  set (f := fun x : nat => (gen_data (single_key_before_fix (SInt seed) x), estimate (gen_data (single_key_before_fix (SInt seed) x)))).
+  rewrite !(nth_indep _ dflt (f 0%nat)) by (rewrite map_length, seq_length; assumption).
+  rewrite !map_nth. reflexivity. Qed.
+
+(* every stored estimate is the estimator applied to the stored data of the same repetition (re-estimation) *)
+Theorem single_run_reestimate (dflt : Data * Est) arg seed_data n_rep r : (r < n_rep)%nat ->
+  snd (nth r (single_run gen_data estimate arg seed_data n_rep) dflt) = estimate (fst (nth r (single_run gen_data estimate arg seed_data n_rep) dflt)).
+Proof. intros Hr. unfold single_run.
+  set (f := fun k => (gen_data k, estimate (gen_data k))).
+  rewrite (nth_indep _ dflt (f (KAmbient 0))) by (unfold single_keys; rewrite !map_length, seq_length; exact Hr).
+  rewrite map_nth. reflexivity. Qed.
+End SingleRun.
+
+(* the property "repetitions draw from pairwise distinct streams" was FALSE of the code before the fix *)
+Theorem execute_simulation_repetitions_identical_before_fix_refuted :
+  exists (arg : seedarg) (seed_data : option Z) (n_rep : nat),
+    (2 <= n_rep)%nat /\ ~ NoDup (single_keys_before_fix arg seed_data n_rep).
+Proof. exists SNone, (Some 5%Z), 3%nat. split; [lia|]. cbn. intros H. inversion H as [|x l Hn _]. apply Hn. now left. Qed.
+
+(* ------------------------------------------------------------------ flow: unseeded tester generation *)
+(* as coded before fix c15-flow-generation-stream-per-setting: "the generated objects are a function of settings and
+   seeds" was FALSE when the true object's noise needs no randomness but a tester's does: the tester drew from the
+   ambient stream *)
+Theorem flow_tester_generation_unseeded_before_fix_refuted :
+  exists (c : flowcfg) (s j a a' : nat), qop_key_before_fix c a s j <> qop_key_before_fix c a' s j.
+Proof. exists {| f_seed_qop := 888; f_seed_data := 777; f_n_sample := 2; f_n_rep := 3; f_n_case := 3;
+                 f_true_seeded := false; f_tester_seeded := [true; true; true] |}, 0%nat, 1%nat, 0%nat, 1%nat.
+  cbn. intros H. inversion H. Qed.
+
+(* and the converse mix raises *)
+Theorem flow_mixed_generation_raises_before_fix c t : f_true_seeded c = true -> (t < length (f_tester_seeded c))%nat ->
+  nth t (f_tester_seeded c) false = false -> flow_raises_before_fix c = true /\ forall amb s, qop_key_before_fix c amb s (S t) = GTypeError.
+Proof. intros H1 Hl H2. split.
+  - unfold flow_raises_before_fix. rewrite H1. cbn. apply negb_true_iff. apply not_true_iff_false. intros Hf.
+    rewrite forallb_forall in Hf. specialize (Hf (nth t (f_tester_seeded c) false) (nth_In _ _ Hl)). congruence.
+  - intros amb s. unfold qop_key_before_fix. now rewrite H1, H2. Qed.
 
 (* ------------------------------------------------------------------ tasks sharing a mutable object *)
 Definition all_own (l : list (nat * option nat)) : Prop := Forall (fun tr => snd tr = Some (fst tr)) l.
@@ -277,13 +324,13 @@ Proof. induction sched as [|[t|t] r IH]; intros seen regs Hp Hr; cbn in *.
     + now apply (IH seen). Qed.
 
 (* one shared object, tasks executed one after the other (n_jobs = 1): fine as well *)
-Theorem shared_object_sequential_ok order : forall reg,
-  all_own (run_shared reg (concat (map (fun t => [SetData t; Optimize t]) order))).
+Theorem shared_object_sequential_ok_before_fix order : forall reg,
+  all_own (run_shared_before_fix reg (concat (map (fun t => [SetData t; Optimize t]) order))).
 Proof. induction order as [|t r IH]; intros reg; cbn; [constructor|]. constructor; [reflexivity|apply IH]. Qed.
 
 (* one shared object, two threads: there is an interleaving, respecting program order, in which a task optimises
    over ANOTHER task's data *)
-Theorem shared_object_thread_race_refuted :
-  exists sched, program_order [] sched = true /\ ~ all_own (run_shared None sched).
+Theorem shared_object_thread_race_before_fix_refuted :
+  exists sched, program_order [] sched = true /\ ~ all_own (run_shared_before_fix None sched).
 Proof. exists [SetData 0; SetData 1; Optimize 0; Optimize 1]%nat. split; [reflexivity|].
   cbn. intros H. inversion H as [|x l Hx _]. cbn in Hx. discriminate. Qed.
